@@ -97,4 +97,25 @@ def relChain (k : Nat) : FS :=
         { mode := modeSymlink + 0o777, target := if i + 1 < k then rname (i + 1) else "f".toList }) ++
       [{ mode := 0o644 }] }
 
+/-! a merged-`/usr` layout: `usr/bin/sh → busybox` (relative, in a real directory), `bin → /usr/bin`,
+`lnk → usr/bin/sh` (relative, at the root) -/
+
+def mergeDemoOps : List Op :=
+  [.mkdirAll "usr/bin".toList 0o755, .mknod "usr/bin/busybox".toList 0o755 0,
+   .symlink "busybox".toList "usr/bin/sh".toList, .symlink "/usr/bin".toList "bin".toList,
+   .symlink "usr/bin/sh".toList "lnk".toList]
+
+def mergeDemo : FS :=
+  { nodes := [
+      { rootInode with children := [("usr".toList, 1), ("bin".toList, 5), ("lnk".toList, 6)] },
+      { dir := true, mode := modeDir ||| 0o755, children := [("bin".toList, 2)] },
+      { dir := true, mode := modeDir ||| 0o755, children := [("busybox".toList, 3), ("sh".toList, 4)] },
+      { mode := 0o755 ||| modeCharDevice ||| modeDevice },
+      { mode := modeSymlink + 0o777, target := "busybox".toList },
+      { mode := modeSymlink + 0o777, target := "/usr/bin".toList },
+      { mode := modeSymlink + 0o777, target := "usr/bin/sh".toList }] }
+
+theorem mergeDemo_reachable (b : Backend) : (run (Cfg.impl b) FS.empty mergeDemoOps).1 = mergeDemo := by
+  cases b <;> decide
+
 end Apko.FS
